@@ -195,6 +195,10 @@ class LedgerGen:
     def rollback(self):
         r = self.r
         t = r.choice([self.height, max(0, self.height - 1), max(0, self.height - 2), max(0, self.height - r.randint(0, 12)), 0, self.height + 1])
+        if self.height > 11 and r.random() < 0.35:
+            # the edges of the journal window: exactly its lower bound (the oldest journal must still be there), one below it
+            t = r.choice([self.height - 10, self.height - 10, self.height - 11])
+            self.tags.add("rollback:window-edge")
         self.ops.append(f"rollback {t}")
         self.ops.append("ver")
         self.tags.add("rollback")
